@@ -30,6 +30,12 @@ func Faults() []Fault {
 		{Name: "indent-deeper-after-unindented", Abs: true, Lines: func(t string) string {
 			return "plain text at column 0\n" + t + "\t%b as deep as the block before the unindented line, plus one"
 		}},
+		// the same rule at the positions below a `-#` comment (its nested lines are skipped, but still lines of the template)
+		{Name: "indent-spaces-below-ruby-comment", Abs: true, Lines: func(t string) string { return t + "-# note\n" + t + "  %b deeper with spaces" }},
+		{Name: "indent-spaces-only-below-ruby-comment", Abs: true, Lines: func(t string) string { return t + "-# note\n" + strings.Repeat(" ", len(t)+2) + "%b deeper with spaces" }},
+		{Name: "indent-spaces-second-line-below-ruby-comment", Abs: true, Lines: func(t string) string {
+			return t + "-# note\n" + t + "\tfirst nested line\n" + t + " \t%b deeper, a blank before the last tab"
+		}},
 		{Name: "indent-two-levels", Lines: rel("%p", "\t\t%b two levels deeper")},
 		{Name: "inline-and-nested", Lines: rel("%p inline", "\t%b nested too")},
 		{Name: "inline-script-and-nested", Lines: rel("%p= s0", "\t%b nested too")},
